@@ -47,6 +47,7 @@ type checkDef struct {
 	AlsoSigs     []string          // signatures of a shared harness that also belong to this check although they carry another property's prefix
 	UseStubs     bool              // install the vfs/stubs redirect table
 	NativeCheck  bool              // violations are confirmed by native playback of the same harness
+	NativeRepeat int               // native confirmation replays each example this many times (behaviour depending on map order / scheduling)
 	NoNative     map[string]bool   // signatures that cannot be replayed natively with the harness (confirmed by other means)
 }
 
@@ -534,8 +535,16 @@ func runCheck(def *checkDef, tier string, seed int64, workers int) int {
 		// native confirmation
 		if def.NativeCheck && !def.NoNative[sig] {
 			var items []nativeItem
-			for _, ex := range g.Examples {
-				items = append(items, nativeItem{Func: jobFunc[ex.Job], Vars: ex.Model, Params: ex.Params})
+			exOf := []int{}
+			rep := def.NativeRepeat
+			if rep < 1 {
+				rep = 1
+			}
+			for ei, ex := range g.Examples {
+				for r := 0; r < rep; r++ {
+					items = append(items, nativeItem{Func: jobFunc[ex.Job], Vars: ex.Model, Params: ex.Params})
+					exOf = append(exOf, ei)
+				}
 			}
 			nres, log, err := nativeBatch(def.ID, jobPkg[g.Examples[0].Job], items)
 			if err != nil {
@@ -545,7 +554,7 @@ func runCheck(def *checkDef, tier string, seed int64, workers int) int {
 					if nativeShows(r, sig, def) {
 						g.Confirmed = true
 						g.Native = describeNative(r)
-						g.Examples[0], g.Examples[k] = g.Examples[k], g.Examples[0]
+						g.Examples[0], g.Examples[exOf[k]] = g.Examples[exOf[k]], g.Examples[0]
 						break
 					}
 				}
@@ -840,7 +849,7 @@ func compareObs(eng map[string]string, engViol []string, n nativeResult) string 
 		return fmt.Sprintf("violations differ: engine %v native %v", a, b)
 	}
 	for k, v := range eng {
-		if k == "#end" || k == "#stopped" {
+		if k == "#end" || k == "#stopped" || strings.HasPrefix(k, "~") {
 			continue
 		}
 		if n.Observed[k] != v {
@@ -851,6 +860,9 @@ func compareObs(eng map[string]string, engViol []string, n nativeResult) string 
 		return "" // the engine path was cut at a stop-at function: the native run observes more
 	}
 	for k, v := range n.Observed {
+		if strings.HasPrefix(k, "~") {
+			continue
+		}
 		if _, ok := eng[k]; !ok {
 			return fmt.Sprintf("observation %s only native: %s", k, v)
 		}
@@ -863,6 +875,9 @@ func compareObsOnly(eng map[string]string, n nativeResult) string {
 		return "native " + describeNative(n)
 	}
 	for k, v := range eng {
+		if strings.HasPrefix(k, "~") {
+			continue // informational: legitimately differs between runs (map order, scheduling)
+		}
 		if strings.Contains(v, "\\x00⟦") || strings.Contains(v, "⟦") {
 			continue // placeholder text is not comparable
 		}
